@@ -323,6 +323,85 @@ def run_check(tier, seed):
                               dict(original=repr(t0), skeleton=gsk, result=repr(res)), key='C08:not-recovered:binder-chain')
         run.count(('chain', gsk), nontrivial=res is not None)
 
+    # ---- several unannotated binders whose variables meet in one overloaded / polymorphic constant; every constant type is
+    #      erased and the types are fixed by a declared free variable (or a typed numeral) reached last, first or in the middle
+    def multi_binder():
+        T = r.choice([natT, intT])
+        k = r.choice([2, 2, 3, 4])
+        plus, times = Const('plus', TFun(T, T, T)), Const('times', TFun(T, T, T))
+        eq, le = Const('equals', TFun(T, T, BoolType)), Const('less_eq', TFun(T, T, BoolType))
+        conj = Const('conj', TFun(BoolType, BoolType, BoolType))
+        n_ = Var('n', T)
+        anchor = n_ if r.random() < 0.7 else Const(r.choice(['zero', 'one']), T)
+
+        def arith(items):
+            items = list(items)
+            r.shuffle(items)
+            while len(items) > 1:
+                i = r.randrange(len(items) - 1)
+                items[i:i + 2] = [Comb(Comb(r.choice([plus, plus, times]), items[i]), items[i + 1])]
+            return items[0]
+        bs = [Bound(i) for i in range(k)]
+        first = Comb(Comb(r.choice([eq, le]), arith(bs)), anchor) if r.random() < 0.6 else Comb(Comb(r.choice([eq, le]), anchor), arith(bs))
+        parts = [first]
+        for _j in range(r.choice([0, 1, 2])):
+            parts.append(Comb(Comb(r.choice([eq, le]), arith(r.sample(bs, r.choice([1, 2])))), arith(r.sample(bs, 1) + ([anchor] if r.random() < 0.3 else []))))
+        r.shuffle(parts)
+        ill = r.random() < 0.25
+        if ill:
+            parts.insert(r.randrange(len(parts) + 1), r.choice(bs))        # a bound variable used as a proposition as well
+        body = parts[-1]
+        for pt_ in reversed(parts[:-1]):
+            body = Comb(Comb(conj, pt_), body)
+        t = body
+        for i in range(k):
+            # only the outermost binder may be a quantifier (an inner one would make the next body a proposition, which it is)
+            q = r.choice(['lam', 'lam', 'all', 'ex'])
+            ab = Abs('xyzw'[k - 1 - i], T, t)
+            t = ab if q == 'lam' else Comb(Const('all' if q == 'all' else 'exists', TFun(TFun(T, BoolType), BoolType)), ab)
+            if q == 'lam' and i < k - 1:
+                # the remaining binders are abstractions as well: %x. (a function) is not a proposition
+                for j in range(i + 1, k):
+                    t = Abs('xyzw'[k - 1 - j], T, t)
+                break
+        return t, ({'n': T} if anchor is n_ else {}), ill
+
+    def er_all(t, keep_numerals):
+        if t.is_const():
+            return Const(t.name, t.T if (keep_numerals and t.name in ('zero', 'one')) else None)
+        if t.is_comb():
+            return Comb(er_all(t.fun, keep_numerals), er_all(t.arg, keep_numerals))
+        if t.is_abs():
+            return Abs(t.var_name, None, er_all(t.body, keep_numerals))
+        return Bound(t.n) if t.is_bound() else Var(t.name, None)
+    for i in range(80 if tier == 'quick' else 1200):
+        t0, ctx, ill = multi_binder()
+        if not ill:
+            try:
+                t0.checked_get_type()
+            except RecursionError:
+                raise
+            except Exception:
+                run.stat('multi:gen-ill-typed')
+                continue
+        sk = er_all(t0, True)
+        gsk = g_sk(sk)
+        res, err, msg = run_infer(sk, dict(ctx))
+        run.stat('multi:%s:%s' % ('ill' if ill else 'well', 'ok' if res is not None else err))
+        if err and err != 'TypeInferenceException':
+            run.violation('property', 'type_infer fails with a foreign exception %s on binders that meet in one overloaded constant' % err,
+                          dict(original=repr(t0), skeleton=gsk, error=msg), key='C08:foreign-exception:' + err)
+        if res is not None:
+            exprs.append('infer_diag %s %s [] %s %s' % (sig_expr(res), g_list(['(%s, %s)' % (g_str(k_), g_ty(v_)) for k_, v_ in sorted(ctx.items())]), gsk, g_tm(res)))
+            meta.append((t0, gsk, ctx, res, 'multi-binder' + (':ill-typed' if ill else ''), 'all'))
+            if not ill and repr(res) != repr(t0):
+                run.violation('property', 'inference on a determined skeleton with several unannotated binders returns a different term',
+                              dict(original=repr(t0), skeleton=gsk, result=repr(res)), key='C08:not-recovered:multi-binder')
+        elif not ill:
+            run.violation('property', 'inference fails ("%s") on the erasure of a well-typed term whose types are determined by %s' % (msg, 'the declared variable n' if ctx else 'a typed numeral'),
+                          dict(original=repr(t0), skeleton=gsk, declared={k_: str(v_) for k_, v_ in ctx.items()}, error=msg), key='C08:erasure-rejected:multi-binder')
+        run.count(('multi', gsk), nontrivial=res is not None)
+
     # ---- ill-typed skeletons
     x, f = lambda: Var('x', None), lambda: Var('f', None)
     bad = [
